@@ -343,6 +343,8 @@ SYSTEMATIC_SCALARS = (
      b"\t", b"a\tb", b"\x00", b"\x01", b"\x04", b"\x07", b"\x08", b"\x0b", b"\x0c", b"\x1b", b"\x1f", b"\x7f", b"a\x00b",
      b"a\x04b", b"\\n", b'a"b', b"a'b", b"a\\b", b"{a}", b"[a]", b"a,b", b"a, b", b"&a", b"*a", b"!a", b"|", b">", b"%a", b"@a",
      b"`a", b"null", b"Null", b"NULL", b"~", b"true", b"no", b"1e3", b"0x1f", b"...", b"....", b"..", b".", b"---",
+     b"... a", b"... ", b"...\ta", b"--- a", b"--- ", b"...a", b"---a", b"a ...", b"a ---",    # document markers followed by a blank
+     b"a  b", b"a b c", b"- a b", b"? a", b": a", b"a :", b"a #", b"a b: c", b"a b #c",
      "\u00e9".encode(), "\u0080".encode(), "\u0085".encode(), "\u00a0".encode(), "\u00a1".encode(), "\u2028".encode(),
      "\u2029".encode(), "\ufeff".encode(), "a\ufeffb".encode(), "\ufffd".encode(), "\u4e2d\u6587".encode(),
      "\U0001f600".encode(), "\U0010fffd".encode(), "\ud7ff".encode(), "\ue000".encode(),
